@@ -11,6 +11,7 @@ import (
 	"os"
 	"reflect"
 	"strings"
+	"sync"
 	"time"
 
 	"github.com/pebbe/zmq4"
@@ -178,8 +179,15 @@ var nosaveMessages = map[string]struct{}{
 	"externaltrigger": {},
 }
 
+// viperMutex serialises every use of the global viper object after start-up. Viper keeps plain
+// maps and is not safe for concurrent use: the status thread stores and writes the configuration
+// in saveState while an RPC thread starting a source reads its trigger settings in PrepareRun.
+var viperMutex sync.Mutex
+
 // saveState stores server configuration to the standard config file.
 func saveState(lastMessages map[string]interface{}) {
+	viperMutex.Lock()
+	defer viperMutex.Unlock()
 
 	lastMessages["___1"] = "DASTARD configuration file. Written and read by DASTARD."
 	lastMessages["___2"] = "Human intervention by experts is permitted but not expected."
